@@ -1173,15 +1173,30 @@ func (p Patch) copy(doc *container, op Operation, accumulatedCopySize *int64, op
 		return fmt.Errorf("copy operation failed to decode from: %w", err)
 	}
 
-	con, key := findObject(doc, from, options)
+	var val *lazyNode
 
-	if con == nil {
-		return fmt.Errorf("copy operation does not apply: doc is missing from path: \"%s\": %w", from, ErrMissing)
-	}
+	if from == "" {
+		// The whole document is the source: copy what it holds now, not the text it was decoded from.
+		switch sv := (*doc).(type) {
+		case *partialDoc:
+			val = &lazyNode{doc: sv, which: eDoc}
+		case *partialArray:
+			if sv == nil {
+				return fmt.Errorf("error in copy for from: '%s': %w", from, ErrInvalid)
+			}
+			val = &lazyNode{ary: sv, which: eAry}
+		}
+	} else {
+		con, key := findObject(doc, from, options)
 
-	val, err := con.get(key, options)
-	if err != nil {
-		return fmt.Errorf("error in copy for from: '%s': %w", from, err)
+		if con == nil {
+			return fmt.Errorf("copy operation does not apply: doc is missing from path: \"%s\": %w", from, ErrMissing)
+		}
+
+		val, err = con.get(key, options)
+		if err != nil {
+			return fmt.Errorf("error in copy for from: '%s': %w", from, err)
+		}
 	}
 
 	path, err := op.Path()
@@ -1189,7 +1204,7 @@ func (p Patch) copy(doc *container, op Operation, accumulatedCopySize *int64, op
 		return fmt.Errorf("copy operation failed to decode path: %w", ErrMissing)
 	}
 
-	con, key = findObject(doc, path, options)
+	con, key := findObject(doc, path, options)
 
 	if con == nil {
 		return fmt.Errorf("copy operation does not apply: doc is missing destination path: %s: %w", path, ErrMissing)
